@@ -259,6 +259,12 @@ func (s Sorts) scalarSort(t types.Type) (string, bool) {
 	case *types.Pointer, *types.Map, *types.Chan, *types.Signature:
 		return "Int", true
 	case *types.Array:
+		if n, ok := packedArray(t); ok {
+			if s.mode == ModeBV {
+				return fmt.Sprintf("(_ BitVec %d)", 8*n), true
+			}
+			return "Int", true
+		}
 		es, ok := s.scalarSort(u.Elem())
 		if !ok {
 			return "", false
@@ -266,6 +272,20 @@ func (s Sorts) scalarSort(t types.Type) (string, bool) {
 		return "(Array " + s.Idx() + " " + es + ")", true
 	}
 	return "", false
+}
+
+// packedArray: small byte arrays ([16]byte UUIDs, [8]byte buffers) are single scalars (an integer < 256^n, or a bit-vector),
+// so that they can be map keys for every solver and equality is exactly Go's array equality.
+func packedArray(t types.Type) (int, bool) {
+	a, ok := t.Underlying().(*types.Array)
+	if !ok {
+		return 0, false
+	}
+	b, ok := a.Elem().Underlying().(*types.Basic)
+	if !ok || b.Kind() != types.Uint8 || a.Len() > 32 || a.Len() == 0 {
+		return 0, false
+	}
+	return int(a.Len()), true
 }
 
 func (s Sorts) leaves(t types.Type) []leaf {
